@@ -123,6 +123,30 @@ def main():
             ok = False
         except vlib.Infra:
             print("4. truncated trace -> run fails (exit 2 path)  [ok]")
+        # 5. the word-level machine (spec/Fiat.tla) is not vacuous: a copy of scalar_fiat.go in which one carry of the
+        # Montgomery multiplication is added after the fact ("x, c = Add64(a, b, carry)" -> "Add64(a, b, 0); x += carry")
+        # must leave an unproved obligation at that instruction, and arguments that make it wrap must be found
+        import fiatx
+        import re
+        import shutil
+        fdir = os.path.join(work.dir, "fiatcopy")
+        os.makedirs(fdir)
+        src = open(os.path.join(vlib.repo(), "scalar_fiat.go")).read()
+        m = [x for x in re.finditer(r"\t(x\d+), (x\d+) = bits\.Add64\((x\d+), (x\d+), uint64\(fiatScalarUint1\((x\d+)\)\)\)\n", src)]
+        if len(m) < 12:
+            print("5. word-level model: scalar_fiat.go does not have the expected shape; skipped")
+        else:
+            mm = m[11]
+            mut = src[:mm.start()] + "\t%s, %s = bits.Add64(%s, %s, uint64(0x0))\n\t%s += uint64(fiatScalarUint1(%s))\n" % (
+                mm.group(1), mm.group(2), mm.group(3), mm.group(4), mm.group(1), mm.group(5)) + src[mm.end():]
+            open(os.path.join(fdir, "scalar_fiat.go"), "w").write(mut)
+            res0, fails0, leads0, _ = fiatx.model(work, vlib.repo())
+            res1, fails1, leads1, fns1 = fiatx.model(work, fdir)
+            wit = [fiatx.solve(fns1[fn], pc, what, work.dir, timeout=240) for fn, pc, what in leads1[:1]]
+            hit = (not leads0 and not fails0 and len(leads1) >= 1 and wit and wit[0] is not None)
+            print("5. word-level model: working tree %d leads / %d failing runs; with one lazy carry: leads %s, witness %s [%s]" % (
+                len(leads0), len(fails0), leads1, "found" if wit and wit[0] else "not found", "ok" if hit else "EXPECTED a lead and a witness"))
+            ok &= bool(hit)
     finally:
         work.cleanup()
     print("selftest", "passed" if ok else "FAILED")
